@@ -1,6 +1,11 @@
 (* Stream `clock` (C20): the session on its real run loop with its real timers, see harness/cmd/session/s_clock.go.
-   There is no timed model: the "model" column repeats the observation (no correspondence is claimed), and the keep-alive
-   clauses are judged here, on the observation, with coarse windows (H = HeartBtInt in ms):
+   Correspondence: the timed model (Session/Clock.v: the untimed `step` wrapped with the two one-shot deadlines, extracted)
+   is run on the observed timeline's inputs (connects, the peer's pushes and its hang-ups, at the times they happened) and
+   must predict the session's outputs — the same MsgTypes in the same order, each within `tol` ms of the observed time —
+   and the times at which the session closed the connection.  When it does, the model column repeats the observation;
+   when it does not, the model column shows the prediction.
+   Specification: the keep-alive clauses are also judged here, on the observation alone, with coarse windows (H =
+   HeartBtInt in ms):
      silent peer : a Heartbeat in [0.6H, 1.9H], a TestRequest in [0.8H, 2.1H], the connection closed in [2.0H, 3.6H]
                    (nominal 1.0H, 1.2H, 2.4H), OnLogout once per connection;
      alive peer  : no TestRequest, not closed before the peer hangs up, 2..4 Heartbeats of ours in 3H;
@@ -75,13 +80,47 @@ let run (_prop : string) (inp : Sx.t) (obs : Sx.t) : outcome =
   let rec first k = function
     | [] -> None
     | c :: r -> (match check_conn k c with Some m -> Some m | None -> first (k + 1) r) in
+  (* ---- the timed model on the observed inputs ---- *)
+  let timeline = List.concat_map (function Sx.L (Sx.A "timeline" :: l) -> l | _ -> []) conns in
+  let conns = List.filter (function Sx.L (Sx.A "conn" :: _) -> true | _ -> false) conns in
+  let tol = 300 in
+  let hsec = h / 1000 in
+  let cfg = if kind = "slowlogon" then Model.ck_cfg Model.Initiator (Conv.z_of_int hsec) else Model.ck_cfg Model.Acceptor (Conv.z_of_int 30) in
+  let ty_of a = String.sub a 1 (String.length a - 1) in
+  let inputs = List.filter_map (function
+      | Sx.L [t; Sx.A "connect"] -> Some (Conv.z_of_int (int_of t), Model.EConnect)
+      | Sx.L [t; Sx.A "hangup"] -> Some (Conv.z_of_int (int_of t), Model.EInClosed)
+      | Sx.L [t; Sx.A "push"; Sx.A ty; sq; tr] ->
+          let tr = (match tr with Sx.L [Sx.A "some"; b] -> Some (Conv.bytes_sx b) | _ -> None) in
+          Some (Conv.z_of_int (int_of t), Model.EIncoming (Model.ck_msg (Conv.bytes_of_string (ty_of ty)) (Conv.z_of_int (int_of sq)) (Conv.z_of_int hsec) tr))
+      | _ -> None) timeline in
+  let observed_out = List.filter_map (function Sx.L [t; Sx.A "out"; Sx.A ty] -> Some (int_of t, ty_of ty) | _ -> None) timeline in
+  let observed_closed = List.filter_map (function Sx.L [t; Sx.A "closed"] -> Some (int_of t) | _ -> None) timeline in
+  let last_t = List.fold_left (fun a x -> match x with Sx.L (t :: _) -> max a (int_of t) | _ -> a) 0 timeline in
+  let ts = Model.trun true (Conv.nat_of_int 400) (Model.tinit cfg) (inputs @ [(Conv.z_of_int last_t, Model.EFlush)]) in
+  let predicted_out = List.map (fun (t, ty) -> (Conv.int_of_z t, Conv.string_of_bytes ty)) (Model.tout ts) in
+  let predicted_closed = List.rev_map Conv.int_of_z ts.Model.ts_closed in
+  let rec close_enough a b = match a, b with
+    | [], [] -> true
+    | (t1, y1) :: r1, (t2, y2) :: r2 -> y1 = y2 && abs (t1 - t2) <= tol && close_enough r1 r2
+    | _ -> false in
+  let rec times_close a b = match a, b with
+    | [], [] -> true | t1 :: r1, t2 :: r2 -> abs (t1 - t2) <= tol && times_close r1 r2 | _ -> false in
+  (* the session also reports `closed` after the peer's hang-up: the model closes at the hang-up too (Model.EInClosed) *)
+  let agrees = close_enough predicted_out observed_out && times_close predicted_closed observed_closed in
+  let model =
+    if agrees then obs
+    else Sx.L [Sx.A "predicted";
+               Sx.L (List.map (fun (t, y) -> Sx.L [Conv.sx_int t; Sx.A y]) predicted_out); Sx.L (List.map Conv.sx_int predicted_closed);
+               Sx.A "observed";
+               Sx.L (List.map (fun (t, y) -> Sx.L [Conv.sx_int t; Sx.A y]) observed_out); Sx.L (List.map Conv.sx_int observed_closed)] in
   let bad = match first 0 conns with
     | Some m -> Some m
     | None ->
       if kind <> "late" && kind <> "slowlogon" && List.length conns < nconns then
         Some (Printf.sprintf "sig=connection-not-released only %d of %d connections could be made on the session" (List.length conns) nconns)
       else None in
-  { model = obs; spec_ok = (bad = None); spec_msg = (match bad with Some m -> m | None -> "");
+  { model; spec_ok = (bad = None); spec_msg = (match bad with Some m -> m | None -> "");
     cls = "clock:" ^ kind ^ (if !judged then "" else ":inconclusive"); nontrivial = !judged }
 
 let () = register "clock" run
